@@ -6,6 +6,11 @@ Exp(e)  == e % 2 = 1
 (* --------------------------- sequential specification ------------------- *)
 Count(d) == Cardinality({k \in DOMAIN d : d[k] # 0})
 Live(d, k) == d[k] # 0 /\ ~Exp(d[k])
+\* a whole-map result (LoadAndDeleteAll, CopyData, Range2) as one number: keys 1..3, values < 1024
+Pow(n) == IF n = 0 THEN 1 ELSE IF n = 1 THEN 1024 ELSE 1048576
+RECURSIVE SnapSum(_, _)
+SnapSum(d, S) == IF S = {} THEN 0 ELSE LET k == CHOOSE x \in S : TRUE IN d[k] * Pow(k - 1) + SnapSum(d, S \ {k})
+Snap(d) == SnapSum(d, DOMAIN d)
 SeqApply(op, d) ==
   CASE op.m = "store"   -> [d |-> [d EXCEPT ![op.k] = op.v], res |-> <<0, FALSE>>]
     [] op.m = "load"    -> [d |-> d, res |-> <<d[op.k], d[op.k] # 0>>]
@@ -16,6 +21,15 @@ SeqApply(op, d) ==
     [] op.m = "lad"     -> [d |-> [d EXCEPT ![op.k] = 0], res |-> <<d[op.k], d[op.k] # 0>>]
     [] op.m = "replace" -> [d |-> [d EXCEPT ![op.k] = op.v], res |-> <<d[op.k], d[op.k] # 0>>]
     [] op.m = "length"  -> [d |-> d, res |-> <<Count(d), FALSE>>]
+    \* the ...WithFunc variants: the callback runs inside the critical section and sees the value in the map
+    [] op.m = "storef"  -> [d |-> [d EXCEPT ![op.k] = op.v], res |-> <<0, FALSE>>]
+    [] op.m = "loadf"   -> [d |-> d, res |-> <<d[op.k], d[op.k] # 0>>]
+    [] op.m = "replacef" -> [d |-> [d EXCEPT ![op.k] = op.v], res |-> <<d[op.k], d[op.k] # 0>>]     \* v = 0: the callback asks for deletion
+    [] op.m = "deletef" -> [d |-> [d EXCEPT ![op.k] = 0], res |-> <<d[op.k], d[op.k] # 0>>]
+    [] op.m = "ladf"    -> [d |-> [d EXCEPT ![op.k] = 0], res |-> <<d[op.k], d[op.k] # 0>>]
+    \* whole-map operations
+    [] op.m = "ladall"  -> [d |-> [k \in DOMAIN d |-> 0], res |-> <<Snap(d), FALSE>>]
+    [] op.m \in {"copy", "range2"} -> [d |-> d, res |-> <<Snap(d), FALSE>>]
     [] op.m = "clos"    -> IF Live(d, op.k) THEN [d |-> d, res |-> <<d[op.k], TRUE>>]
                            ELSE [d |-> [d EXCEPT ![op.k] = op.v], res |-> <<op.v, FALSE>>]
     [] op.m = "cload"   -> [d |-> d, res |-> <<IF Live(d, op.k) THEN d[op.k] ELSE 0, Live(d, op.k)>>]
